@@ -8,7 +8,7 @@ from pyvc import spec as S
 from pyvc.contract import contract
 from pyvc.values import TInt, TBool, TStr, TList, TObj, SList, ISDIGIT, STRINT, NUMSTR, WS_LEN, WS_ARR, numstr_axioms
 from . import schemas  # noqa
-from .c_port import OPS, ALL, P, valid, ascending, _op, _mem
+from .c_port import OPS, ALL, P, valid, valid0, ascending, _op, _mem
 from . import c_port  # noqa
 
 schema_done = True
@@ -109,15 +109,16 @@ def _refused_line(cx, self, line):
 PFIELDS = ["Port._operator", "Port._items", "Port._ports", "Port._sport"]
 ls = contract("cisco_acl.port.Port.line.fset#digits", dict(self=TObj("Port"), line=TStr), None, props=("C08",), modifies=PFIELDS,
               ghost={"str_shape": "range", "axioms": numstr_axioms()})
-ls.require("numeric operands >= 1", lambda cx, self, line: S.forall(1, toks(line).n, lambda i: z3.And(
-    ISDIGIT(toks(line).a[i]), STRINT(toks(line).a[i]) >= 1)))
+ls.require("numeric operands >= 1 (lt / gt / neq: >= 0)", lambda cx, self, line: S.forall(1, toks(line).n, lambda i: z3.And(
+    ISDIGIT(toks(line).a[i]), z3.Or(STRINT(toks(line).a[i]) >= 1, z3.And(STRINT(toks(line).a[i]) >= 0, z3.Or(*[toks(line).a[0] == o for o in ("lt", "gt", "neq")]))))))
 ls.may_raise("ValueError", _refused_line, exact=True)
 ls.ensure("empty", lambda cx, result, self, line: z3.Implies(toks(line).n == 0, z3.And(
     _op(cx, self) == "", cx.get(self, "_items").n == 0, cx.get(self, "_ports").n == 0, S._t(cx.get(self, "_sport")) == "")))
 ls.ensure("operator", lambda cx, result, self, line: z3.Implies(toks(line).n > 0, _op(cx, self) == toks(line).a[0]))
 ls.ensure("operands", lambda cx, result, self, line: z3.Implies(toks(line).n > 0, z3.And(
     cx.get(self, "_items").n == toks(line).n - 1,
-    valid(_op(cx, self), cx.get(self, "_items")),
+    valid0(_op(cx, self), cx.get(self, "_items")),
+    z3.Implies(S.forall(0, operands(line).n, lambda i: _val(operands(line), i) >= 1), valid(_op(cx, self), cx.get(self, "_items"))),
     S.forall(0, operands(line).n, lambda i: _mem(cx.get(self, "_items"), _val(operands(line), i))),
     S.forall(0, cx.get(self, "_items").n, lambda j: S.exists(0, operands(line).n, lambda i: cx.get(self, "_items").a[j] == _val(operands(line), i))))))
 ls.ensure("operands kept when written ascending", lambda cx, result, self, line: z3.Implies(
